@@ -31,9 +31,9 @@ def fromBE (bs : Bytes) : Nat := bs.foldl (fun acc b => acc * 256 + b.toNat) 0
 
 /-- `int.from_bytes(bs, "little", signed=True)` -/
 def fromLESigned (bs : Bytes) : Int :=
-  let n := fromLE bs
   if bs.length = 0 then 0
-  else if n < 2 ^ (8 * bs.length - 1) then (n : Int) else (n : Int) - (2 ^ (8 * bs.length) : Nat)
+  else if fromLE bs < 2 ^ (8 * bs.length - 1) then (fromLE bs : Int)
+  else (fromLE bs : Int) - ((2 * 2 ^ (8 * bs.length - 1) : Nat) : Int)
 
 /-- Python exception kinds that the modelled code can raise. The first four are the
     library's own error types; everything else is "foreign". -/
